@@ -690,6 +690,7 @@ pub fn def() -> PropDef {
             Stratum { name: "rep_sequences", quick: 126 * 60, thorough: (126 * 2000) * 4, exhaustive: (true, true), run: rep_sequences, what: "all 126 call sequences <= 6 on REP with two pipelining partners" },
             Stratum { name: "req_failed_send", quick: 30_000, thorough: 1_500_000, exhaustive: (false, false), run: req_failed_send, what: "REQ with 2..3 partners, one dies: a failed send leaves the socket ready to send to the others" },
             Stratum { name: "rep_abandoned_send", quick: 30_000, thorough: 1_500_000, exhaustive: (false, false), run: rep_abandoned_send, what: "REP: a reply send is abandoned under back-pressure, then retried: at most one reply per request reaches the requester, in order" },
+            Stratum { name: "rejoin_reply", quick: 9_600, thorough: 800_000, exhaustive: (false, false), run: super::c16::rejoin_reply, what: "REP: a client that comes back under its announced identity (16 departure/rejoin histories, incl. the old connection still open) gets the replies to the requests it sends on its new connection" },
             Stratum { name: "concurrent", quick: 100_000, thorough: (1_500_000) * 4, exhaustive: (false, false), run: concurrent, what: "1..4 concurrent clients against one REP" },
         ],
     }
